@@ -44,6 +44,8 @@ class CorrSim:
         cm.time = self.clock
         sim = self
         self.events = []
+        self.nested_sweep = False
+        self._in_nested = False
 
         class Hook(AbstractHook):
             async def sending(self, m, pdu, cid):
@@ -54,6 +56,14 @@ class CorrSim:
 
             async def send_error(self, m, err, cid):
                 sim.events.append(' E=' + sim.show(m))
+                if sim.nested_sweep and not sim._in_nested:
+                    # another task's correlator operation running while this hook call is
+                    # suspended (here: its sweep), cf. DESIGN tier 3
+                    sim._in_nested = True
+                    try:
+                        await sim.corr._remove_expired()
+                    finally:
+                        sim._in_nested = False
 
         class Thr(AbstractThrottleHandler):
             async def throttled(self):
